@@ -228,7 +228,7 @@ pub fn run(ctx: &Ctx) -> i32 {
     );
     let gates = ctx.gates_for("C12");
     let off = gates.off_list();
-    let cases = ctx.tier.pick(6_000, 120_000);
+    let cases = ctx.tier.pick(20_000, 300_000);
     let max_len = 60;
     let out = run_tapes("C12", ctx.seed, ctx.threads, cases, 400, |tape, stats, counting| {
         let g = Gates::with_off(off.clone());
